@@ -434,7 +434,7 @@ def enum_pages(tier, shard, nshards, rng):
 def parts(tier):
     return [
         Part("pages", check=check_import, enum=enum_pages, quick=(8, 0), thorough=(16, 0)),
-        Part("import", check=check_import, strategy=lambda t: strat_import(t), quick=(16, 80), thorough=(16, 1200)),
-        Part("negative", check=check_negative, strategy=lambda t: strat_negative(t), quick=(16, 80), thorough=(16, 1200)),
-        Part("memimg", check=check_memimg, strategy=lambda t: strat_memimg(t), quick=(8, 100), thorough=(16, 1500)),
+        Part("import", check=check_import, strategy=lambda t: strat_import(t), quick=(16, 300), thorough=(16, 1200)),
+        Part("negative", check=check_negative, strategy=lambda t: strat_negative(t), quick=(16, 250), thorough=(16, 1200)),
+        Part("memimg", check=check_memimg, strategy=lambda t: strat_memimg(t), quick=(16, 200), thorough=(16, 1500)),
     ]
